@@ -1,7 +1,7 @@
 """C01 - trades honour both limits; one price per round, set by the resting side."""
 from .. import taps
 from ..core import canon_hash
-from ..direct import DirectRun, gen_history
+from ..direct import DirectRun, gen_deep_cancel_history, gen_history
 from ..tracker import BookTracker
 
 RULE = (
@@ -31,6 +31,10 @@ def gen_case(rng, tier, idx):
         from ..runnerdrive import gen_runner_case
 
         return gen_runner_case(rng, tier, profile="matching")
+    if idx % 8 in (5, 6):
+        c = gen_deep_cancel_history(rng, tier)
+        c["drive"] = "direct"
+        return c
     c = gen_history(rng, tier)
     c["drive"] = "direct"
     return c
